@@ -212,7 +212,26 @@ def main():
                         if len(first_flags) < 400:
                             first_flags.append({"op": s["name"] + " " + " ".join(sub(s["scenario"])[1:]), "go": l[:6000], "lean": "(scenario: no model line)"})
                 if rc != 0 and not (rc == 66 and any(" VIOL" in l for l in lines)):
-                    broken.append({"kind": "scenario-crash", "what": "%s exited with %d: %s" % (s["name"], rc, err)})
+                    # a scenario process that died of a Go panic / fatal error whose innermost non-runtime frame
+                    # is library code: the library panicked (or crashed) in a way no recover caught. That is a
+                    # failing input by itself (the run that was under way), not only a broken check.
+                    crash = None
+                    m = re.search(r"^(panic: .*|fatal error: .*|unexpected fault address.*)$", full_err, re.M)
+                    if m:
+                        after = full_err[m.end():]
+                        g = re.search(r"^goroutine \d+ [^\n]*\[running\]:\n((?:.*\n)+?)\n", after + "\n\n", re.M)
+                        frames = re.findall(r"^([A-Za-z0-9_./*()\[\]{}-]+)\(", g.group(1) if g else "", re.M)
+                        frames = [f for f in frames if not f.startswith(("runtime.", "panic", "testing.", "sync.", "internal/"))]
+                        if frames and frames[0].startswith("github.com/basecomplextech/spec/"):
+                            crash = "%s at %s" % (m.group(1)[:120], frames[0])
+                    if crash:
+                        last = lines[-1] if lines else s["name"]
+                        l = "%s run=after(%s) VIOL process-killed-by-library-panic:%s" % (s["name"], re.sub(r"\s+", "_", last[:80]), re.sub(r"\s+", "_", crash))
+                        lines.append(l)
+                        flagged_n += 1
+                        first_flags.append({"op": s["name"] + " " + " ".join(sub(s["scenario"])[1:]), "go": l[:6000], "lean": "(scenario: no model line)"})
+                    else:
+                        broken.append({"kind": "scenario-crash", "what": "%s exited with %d: %s" % (s["name"], rc, err)})
                 if not lines or any(re.search(r" summary runs=0( |$)", l) for l in lines):
                     broken.append({"kind": "scenario-empty", "what": s["name"] + " executed no run"})
                 continue
